@@ -1260,6 +1260,8 @@ class Exec(object):
     def load_field(self, st, base, key, node):
         ctx = self.ctx
         t = self.field_type(key, node)
+        if t == "any":
+            return mk_ref(ctx.fresh("any_" + key), "opaque:any")  # a value whose content is never inspected
         if t == "bool":
             return mk_bool(ctx.sel(ctx.field_array(st, "val_" + key, AIB), base.z))
         v = ctx.sel(ctx.field_array(st, "val_" + key, AII), base.z)
@@ -1282,6 +1284,8 @@ class Exec(object):
     def store_field(self, st, base, key, val, node):
         ctx = self.ctx
         t = self.field_type(key, node)
+        if t == "any":
+            return
         if val.k == "conc":
             val = lift_conc(ctx, val, node)
         if t == "bool":
